@@ -310,15 +310,20 @@ def table_lines(ids):
 # ------------------------------------------------------------------ request text
 
 
-def _block(quads, split=False, sp=ABS):
-    """quads the way a user writes them: runs of equal graph (with `split`: every quad on its own);
-    default-graph runs as plain triples, the others as one GRAPH block each.  The same graph may therefore be
-    named by several GRAPH blocks of one operation (translateQuads has to collect them all)."""
+def parts(quads, split=False, eb=()):
+    """the quad list as the sequence of parts a user writes: runs of equal graph (with `split`: every quad on
+    its own) — (0, triples) outside GRAPH, (g, triples) one GRAPH block; then one EMPTY block per graph of `eb`"""
+    runs = ([(q[3], [q[:3]]) for q in quads] if split
+            else [(g, [q[:3] for q in grp]) for g, grp in itertools.groupby(quads, key=lambda q: q[3])])
+    return runs + [(g, []) for g in (eb or ())]
+
+
+def _block(quads, split=False, sp=ABS, eb=()):
+    """text of a quad list: default-graph runs as plain triples, the others as one GRAPH block each.  The same
+    graph may be named by several GRAPH blocks of one operation (translateQuads has to collect them all)."""
     out = []
-    runs = ([(q[3], [q]) for q in quads] if split
-            else [(g, list(grp)) for g, grp in itertools.groupby(quads, key=lambda q: q[3])])
-    for g, grp in runs:
-        ts = " . ".join(f"{sp.t(s)} {sp.t(p)} {sp.t(o)}" for s, p, o, _g in grp)
+    for g, grp in parts(quads, split, eb):
+        ts = " . ".join(f"{sp.t(s)} {sp.t(p)} {sp.t(o)}" for s, p, o in grp)
         out.append(ts + " ." if g == 0 else f"GRAPH {sp.t(g)} {{ {ts} }}")
     return " ".join(out)
 
@@ -341,9 +346,9 @@ def _gref2(t, sp=ABS):
 def op_text(op, sp=ABS):
     k = op["k"]
     if k == "insertdata":
-        return f"INSERT DATA {{ {_block(op['q'], op.get('split'), sp)} }}"
+        return f"INSERT DATA {{ {_block(op['q'], op.get('split'), sp, op.get('eb'))} }}"
     if k == "deletedata":
-        return f"DELETE DATA {{ {_block(op['q'], op.get('split'), sp)} }}"
+        return f"DELETE DATA {{ {_block(op['q'], op.get('split'), sp, op.get('eb'))} }}"
     if k == "deletewhere":
         return f"DELETE WHERE {{ {_block(op['q'], op.get('split'), sp)} }}"
     if k == "modify":
@@ -351,9 +356,9 @@ def op_text(op, sp=ABS):
         if op.get("with"):
             parts.append(f"WITH {sp.t(op['with'])}")
         if op.get("del") is not None:
-            parts.append(f"DELETE {{ {_block(op['del'], op.get('split'), sp)} }}")
+            parts.append(f"DELETE {{ {_block(op['del'], op.get('split'), sp, op.get('eb'))} }}")
         if op.get("ins") is not None:
-            parts.append(f"INSERT {{ {_block(op['ins'], op.get('split'), sp)} }}")
+            parts.append(f"INSERT {{ {_block(op['ins'], op.get('split'), sp, op.get('eb'))} }}")
         for g in op.get("using", []):
             parts.append(f"USING {sp.t(g)}")
         for g in op.get("named", []):
@@ -840,6 +845,8 @@ def run_impl(case):
                 stats["relative_iri_in_first_op"] = stats.get("relative_iri_in_first_op", 0) + ol.count("@r.")
     for o in case["ops"]:
         stats["op_" + o["k"]] = stats.get("op_" + o["k"], 0) + 1
+        if o.get("eb"):
+            stats["empty_graph_block"] = stats.get("empty_graph_block", 0) + 1
         for f in ("q", "del", "ins"):
             if o.get(f) and repeated_graph_blocks(o[f], o.get("split")):
                 key = "graph_in_several_blocks_" + (o["k"] if f == "q" else f)
@@ -883,17 +890,34 @@ def _wmode_tokens(wm, sp):
     return [0]
 
 
+def _plus1(tokens):
+    """block count + 1 in front (0 is reserved for an absent clause)"""
+    nb, _, rest = tokens.partition(" ")
+    return (str(int(nb) + 1) + " " + rest).strip()
+
+
+def _parts_tokens(quads, split, eb, sp):
+    """the written block structure for the model: nb, then per block  g nt (s p o)…"""
+    ps = parts(quads, split, eb)
+    toks = [str(len(ps))]
+    for g, ts in ps:
+        toks += [sp.m(g), str(len(ts))] + [sp.m(x) for t in ts for x in t]
+    return " ".join(toks)
+
+
 def op_line(op, sp=ABS):
     k = op["k"]
-    if k in ("insertdata", "deletedata", "deletewhere"):
+    if k in ("insertdata", "deletedata"):
+        return f"{k} {_parts_tokens(op['q'], op.get('split'), op.get('eb'), sp)}"
+    if k == "deletewhere":
         return f"{k} {len(op['q'])} {_qs(op['q'], sp)}".strip()
     if k == "modify":
         d, i = op.get("del"), op.get("ins")
         f = op.get("filter")
         return " ".join(str(x) for x in [
             "modify", sp.m(op.get("with") or 0),
-            0 if d is None else len(d) + 1, _qs(d or [], sp),
-            0 if i is None else len(i) + 1, _qs(i or [], sp),
+            *([0] if d is None else [_plus1(_parts_tokens(d, op.get("split"), op.get("eb"), sp))]),
+            *([0] if i is None else [_plus1(_parts_tokens(i, op.get("split"), op.get("eb"), sp))]),
             len(op.get("using", [])), *[sp.m(g) for g in op.get("using", [])],
             len(op.get("named", [])), *[sp.m(g) for g in op.get("named", [])],
             len(op["where"]), _qs(op["where"], sp),
@@ -1223,6 +1247,9 @@ def _gen_case(rng, tier, i):
                 "filter": flt, "split": split, "wmode": wmode}
 
     ops = [gen_op() for _ in range(rng.choice([1, 1, 1, 2, 2, 3, 4]))]
+    for op in ops:                                # now and then an EMPTY `GRAPH g { }` block closes the quad data / templates
+        if not single and op["k"] in ("insertdata", "deletedata", "modify") and rng.random() < 0.1:
+            op["eb"] = [rng.choice(anyg + ([44] if op["k"] == "modify" else []))]
     case = {"api": api, "union": union, "init": init, "reg": reg, "ops": ops, "prep": rng.random() < 0.25}
     if rng.random() < 0.4:
         # BASE / PREFIX before the first operation, sometimes redeclared before a later one; the IRIs of EVERY
@@ -1316,6 +1343,9 @@ def _shrink(case):
         for i in range(len(case["decl"])):
             if case["decl"][i] and i > 0:
                 yield {**case, "decl": case["decl"][:i] + [[]] + case["decl"][i + 1:]}
+    for i, op in enumerate(ops):
+        if op.get("eb"):
+            yield {**case, "ops": ops[:i] + [{k_: v for k_, v in op.items() if k_ != "eb"}] + ops[i + 1:]}
     for i, op in enumerate(ops):
         if op.get("split"):
             yield {**case, "ops": ops[:i] + [{**op, "split": False}] + ops[i + 1:]}
